@@ -11,6 +11,8 @@ import traceback
 from . import env
 
 KNOWN_FILE = os.path.join(env.VERIF, 'known_findings.json')
+# mutation demonstrations redirect evidence/replays so that the committed evidence is never theirs
+OUT = os.environ.get('VP_OUT') or env.VERIF
 
 
 # --------------------------------------------------------------------------- signatures
@@ -299,7 +301,7 @@ class Report:
 
 
 def write_replay(prop, sig, case, detail, count=1):
-    d = os.path.join(env.VERIF, 'replays', prop)
+    d = os.path.join(OUT, 'replays', prop)
     os.makedirs(d, exist_ok=True)
     body = dict(property=prop, sig=list(sig), case=case, detail=detail, cases=count,
                 repo=env.REPO)
@@ -331,7 +333,7 @@ def _check_evidence(ev):
 
 def write_evidence(prop, ev):
     _check_evidence(ev)
-    d = os.path.join(env.VERIF, 'evidence')
+    d = os.path.join(OUT, 'evidence')
     os.makedirs(d, exist_ok=True)
     path = os.path.join(d, prop + '.json')
     tmp = path + '.tmp'
